@@ -183,6 +183,21 @@ def _dwarf(ctx, data, follow, peers, max_dies):
             for t in tus:
                 d['tu_meta'].append(dict(off=t.tu_offset, sig=t['signature'], type_offset=t['type_offset'],
                                          die_off=t.tu_die_offset, size=t.size))
+    # line programs that define files themselves (DW_LNE_define_file): decoding such a program extends the file table of
+    # its header - by design the header then reads differently before and after the first decode, so header queries on
+    # these programs are not history-free and are left out of the pools (the table *after* decoding is asked instead)
+    d['lp_define_file'] = False
+    for u in (units or [])[:64]:
+        def grows(u=u):
+            lp = dw.line_program_for_CU(u)
+            if lp is None:
+                return False
+            n0 = len(lp.header['file_entry'])
+            lp.get_entries()
+            return len(lp.header['file_entry']) != n0
+        if _try(grows, False):
+            d['lp_define_file'] = True
+            break
     # CFI
     d['cfi'] = {}
     for kind, has, get in (('eh', dw.has_EH_CFI, dw.EH_CFI_entries), ('debug', dw.has_CFI, dw.CFI_entries)):
